@@ -41,7 +41,14 @@ def value_form(rng, v):
     r = rng.random()
     if r < 0.4:
         return int(v)
+    if r < 0.47:
+        return numpy.int64(v)
     if r < 0.55:
+        # narrow / unsigned numpy scalars are integers too (only where the value fits)
+        for t in rng.sample([numpy.int8, numpy.uint8, numpy.int16, numpy.uint16, numpy.int32], 5):
+            info = numpy.iinfo(t)
+            if info.min <= v <= info.max:
+                return t(v)
         return numpy.int64(v)
     if r < 0.8:
         return (int(v), int(v))
